@@ -20,7 +20,17 @@ def array(obj, dtype=None, copy=True, order=None, ndmin=0):
     dt = _dtype(dtype) if dtype is not None else None
     if isinstance(obj, ndarray):
         if dt is None or dt is obj.dtype:
-            return obj.copy() if copy else obj
+            if copy:
+                return obj.copy(order or 'K')
+            if order == 'C' and not obj._contiguous():
+                if copy is False:
+                    raise ValueError("Unable to avoid copy while creating an array as requested.")
+                return obj.copy('C')
+            if order == 'F' and obj.ndim > 1 and not obj._f_contiguous() and not (obj._contiguous() and builtins.sum(1 for n in obj.shape if n != 1) <= 1):
+                if copy is False:
+                    raise ValueError("Unable to avoid copy while creating an array as requested.")
+                return obj.copy('F')
+            return obj
         if copy is False:
             raise ValueError("Unable to avoid copy while creating an array as requested.")
         return obj.astype(dt)
@@ -40,15 +50,25 @@ def array(obj, dtype=None, copy=True, order=None, ndmin=0):
     return ndarray(shape, kind, [_cast_cell(c, kind) for c in flat])
 
 
-def asarray(obj, dtype=None, order=None):
-    return array(obj, dtype=dtype, copy=None)
+def asarray(obj, dtype=None, order=None, copy=None):
+    return array(obj, dtype=dtype, copy=copy, order=order)
 
 
 asanyarray = asarray
 
 
 def ascontiguousarray(obj, dtype=None):
-    return asarray(obj, dtype)
+    a = asarray(obj, dtype, order='C')
+    if a.ndim == 0:
+        a = a.reshape(1)
+    return a
+
+
+def asfortranarray(obj, dtype=None):
+    a = asarray(obj, dtype, order='F')
+    if a.ndim == 0:
+        a = a.reshape(1)
+    return a
 
 
 def _shape_arg(shape):
